@@ -186,8 +186,8 @@ def load_witnesses():
 
 def plans(tier):
     if tier == "quick":
-        return [("RestrQ", [(k, o) for k in "sc" for o in OCCS])]
-    return [("RestrQ", [(k, o) for k in "sc" for o in OCCS]),
+        return [("RestrQ", [(k, o) for k in "sc" for o in OCCS]), ("RestrA", [("a", (1, 1)), ("a", (0, 1))])]
+    return [("RestrQ", [(k, o) for k in "sc" for o in OCCS]), ("RestrA", [("a", (1, 1)), ("a", (0, 1))]),
             ("Restr1", [(k, o) for k in "sc" for o in OCCS_FULL])]
 
 
